@@ -25,7 +25,7 @@ def lc(s):
 
 def parse_dump(text):
     """regdump stdout -> dict(schemas=[..], entities=[..], types=[..], insts={lname: obj}, begun=[..], done=bool, bad=[lines])."""
-    d = dict(schemas=[], entities=[], types=[], insts={}, begun=[], done=False, bad=[])
+    d = dict(schemas=[], entities=[], types=[], insts={}, p21={}, begun=[], done=False, bad=[])
     for line in text.splitlines():
         if not line.startswith('{'):
             continue
@@ -45,9 +45,35 @@ def parse_dump(text):
             d['begun'].append(o['entity'])
         elif k == 'inst':
             d['insts'][lc(o['entity'])] = o
+        elif k == 'inst-p21':
+            d['p21'][lc(o['entity'])] = o.get('text')
         elif k == 'done':
             d['done'] = True
     return d
+
+
+def p21_parameters(text):
+    """'#0=E($,*,$);' -> ['$', '*', '$'] (top-level parameters of a simple entity instance record); None when the text
+    is not of that form.  A fresh instance carries no strings, so parentheses and commas are structural."""
+    t = (text or '').strip()
+    i, j = t.find('('), t.rfind(')')
+    if not t.startswith('#') or i < 0 or j < i or t[j + 1:].strip() != ';':
+        return None
+    body = t[i + 1:j]
+    out, cur, depth = [], '', 0
+    for c in body:
+        if c == '(':
+            depth += 1
+        elif c == ')':
+            depth -= 1
+        if c == ',' and depth == 0:
+            out.append(cur.strip())
+            cur = ''
+        else:
+            cur += c
+    if cur.strip() or out:
+        out.append(cur.strip())
+    return out
 
 
 # ----------------------------------------------------------------------------------------------- type comparison
@@ -236,16 +262,23 @@ def compare(schema, dump, chk=None):
                     out.append(('%s|%s|optional flag differs' % (where, 'OPTIONAL' if wopt else 'required'), '%s.%s: want %s, got %s' % (ent.name, a.name, wopt, ga.get('opt'))))
                 if wopt:
                     seen(where, 'optional')
+                # which of the four kinds of attribute the dictionary says this is (explicit / derived / re-declared; inverse
+                # attributes are judged below).  exp2cxx prints the descriptor in a code path chosen by the kind of the
+                # attribute's type, so the key names the clause and the kind of type the attribute is (re-)declared with.
+                dshape = ('in-line ' if a.type.kind == 'aggr' else '') + shape
                 if k == 'explicit':
-                    okk = ga.get('at') == ('redefining' if red else 'explicit') or (red and ga.get('at') == 'explicit')
-                    if not okk or ga.get('derived') == 'T':
-                        out.append(('%s|%s|attribute kind differs' % (where, 're-declared' if red else 'explicit'),
-                                    '%s.%s: want explicit, got AttrType %s Derived()=%s' % (ent.name, a.name, ga.get('at'), ga.get('derived'))))
+                    wat = 'redefining' if red else 'explicit'
+                    if ga.get('at') != wat or ga.get('derived') == 'T':
+                        out.append(('attr|%s|attribute kind differs' % ('explicit re-declaration to %s' % dshape if red else 'explicit'),
+                                    '%s.%s: want %s, got AttrType %s Derived()=%s' % (ent.name, a.name, 're-declared (AttrType_Redefining)' if red else 'explicit',
+                                                                                       ga.get('at'), ga.get('derived'))))
+                    if red:
+                        seen(where, 're-declared', dshape)
                 else:
                     if ga.get('at') != 'deriving' or ga.get('derived') != 'T':
-                        out.append(('%s|%s|attribute kind differs' % (where, 're-declared' if red else 'new'),
+                        out.append(('derived-attr|%s|attribute kind differs' % ('derived re-declaration to %s' % dshape if red else 'new'),
                                     '%s.%s: want derived, got AttrType %s Derived()=%s' % (ent.name, a.name, ga.get('at'), ga.get('derived'))))
-                    seen(where, 'deriving', red)
+                    seen(where, 'deriving', dshape if red else False)
                 o2 = []
                 cmp_type(schema, a.type, ga.get('type'), o2, where)
                 for key, what in o2:
@@ -398,12 +431,32 @@ def compare_instances(schema, dump, chk=None):
         got = [(lc(x.get('name')), lc(x.get('owner')), bool(x.get('derived'))) for x in g.get('attrs', [])]
         if chk is not None:
             chk.seen('instance', ishape, any(w[2] for w in want))
+        xr = any(a.name.lower().startswith('self\\') for _o, a, _d in schema.all_attrs(ent.name))
+        # the Part 21 record the library writes for the fresh instance: one parameter per inherited-then-own explicit
+        # attribute (`*` where a subtype re-declared it as derived, `$` = unset otherwise)
+        if ent.name.lower() in dump.get('p21', {}):
+            gp = p21_parameters(dump['p21'][ent.name.lower()])
+            wp = ['*' if w[2] else '$' for w in want]
+            if chk is not None:
+                chk.ev()
+                chk.seen('instance record', ishape, len(wp) > 0, '*' in wp, xr)
+            rshape = ishape + (', explicit re-declaration' if xr else '')
+            if gp is None:
+                out.append(('instance record|%s|not a Part 21 instance record' % rshape, '%s: %r' % (ent.name, dump['p21'][ent.name.lower()])))
+            elif len(gp) != len(wp):
+                out.append(('instance record|%s|number of Part 21 parameters differs' % rshape,
+                            '%s: a fresh instance is written with %d parameters, the entity has %d explicit attributes (inherited + own): %s'
+                            % (ent.name, len(gp), len(wp), dump['p21'][ent.name.lower()].strip())))
+            elif gp != wp and not xr:
+                # with an explicit re-declaration the library marks the inherited attribute `*` (part of the open finding
+                # "explicit re-declaration|attribute list differs", judged below on the attribute list itself)
+                out.append(('instance record|%s|unset / derived markers of a fresh instance differ' % rshape,
+                            '%s: want %s, got %s' % (ent.name, ','.join(wp), dump['p21'][ent.name.lower()].strip())))
         if want == got:
             continue
         wn = [w[:2] for w in want]
         gn = [x[:2] for x in got]
         red = any(w[2] for w in want)
-        xr = any(a.name.lower().startswith('self\\') for _o, a, _d in schema.all_attrs(ent.name))
         if xr:
             ishape += ', explicit re-declaration'
         if len(set(gn)) < len(gn) and sorted(set(gn)) == sorted(wn):
